@@ -24,8 +24,8 @@ thread_local! {
     static EPOCH: Cell<u64> = const { Cell::new(0) };
 }
 
-pub const BUSY_LOOP_BOUND: u64 = 200_000;
-pub const BUSY_LOOP_MARK: &str = "vapi: transport polled 200000 times within one task poll";
+pub const BUSY_LOOP_BOUND: u64 = 50_000;
+pub const BUSY_LOOP_MARK: &str = "vapi: transport polled 50000 times within one task poll";
 
 /// Wraps a future so that each poll starts a new epoch.
 pub fn counted<F: std::future::Future>(fut: F) -> impl std::future::Future<Output = F::Output> {
